@@ -274,6 +274,7 @@ func (r *Router) deployTargetsIntoService(service *Service, targetSlot TargetSlo
 
 	lb := NewLoadBalancer(tl)
 	verifEvent("deploy-lb", service, int(targetSlot), lb)
+	verifYield("deploy:lb-created", lb)
 	err = lb.WaitUntilHealthy(deployTimeout)
 	verifEvent("deploy-waited", lb, err == nil)
 	verifYield("deploy:healthy", lb)
